@@ -3017,3 +3017,100 @@ func setterStoresRule(r *Report, rel, typ, method, field, consequence string) {
 	}
 	r.Decide("flow", key+" stores its argument in "+field, ok, "the parameter reaches the field", "the setter does not store its argument in "+field+": "+consequence, fn.Pos())
 }
+
+// guardedFieldsRule: the named fields of a module struct are read with the
+// struct's mutex held (read or write lock) and written with its write lock
+// held, in every function of the module, outside freshly allocated values.
+// (Lock pairing alone does not see a `defer mu.Unlock()` turned into an
+// immediate Unlock: the lock is released on every exit, and protects nothing.)
+func guardedFieldsRule(r *Report, rel, typ, mutex string, fields []string, why string) {
+	w := r.W
+	T := w.Named(rel, typ)
+	if T == nil {
+		r.Undecided("M."+typ, "UNRESOLVED")
+		return
+	}
+	st := map[*ssa.Function]map[ssa.Instruction]lockset{}
+	if fields == nil {
+		// every field that can change after construction: stored to outside a fresh
+		// value, or a map / slice (changed through the loaded reference)
+		sT := T.Underlying().(*types.Struct)
+		for i := 0; i < sT.NumFields(); i++ {
+			fo := sT.Field(i)
+			if fo.Name() == mutex || strings.HasPrefix(fo.Type().String(), "sync.") {
+				continue
+			}
+			mutable := false
+			switch fo.Type().Underlying().(type) {
+			case *types.Map, *types.Slice:
+				mutable = true
+			}
+			for _, stv := range w.fieldStores(fo) {
+				if fa, ok := stv.Addr.(*ssa.FieldAddr); ok && !freshBase(fa) {
+					mutable = true
+				}
+			}
+			if mutable {
+				fields = append(fields, fo.Name())
+			}
+		}
+		if len(fields) == 0 {
+			r.Undecided("M."+typ, "UNRESOLVED: no mutable field")
+		}
+	}
+	for _, fname := range fields {
+		fo := structField(T, fname)
+		if fo == nil {
+			r.Undecided(fmt.Sprintf("%s.%s", typ, fname), "UNRESOLVED: no such field")
+			continue
+		}
+		seen := map[string]bool{}
+		for _, a := range w.fieldAccesses(fo) {
+			if freshBase(a.Addr) {
+				continue
+			}
+			if st[a.Fn] == nil {
+				st[a.Fn] = lockStates(a.Fn, nil)
+			}
+			ls := st[a.Fn][a.Instr]
+			kind := "read"
+			ok := ls.held(a.Base + "." + mutex)
+			if a.Write {
+				kind = "write"
+				ok = ls.heldW(a.Base + "." + mutex)
+			}
+			how := "under " + mutex + " " + ls.String()
+			if !ok && len(a.Fn.Params) > 0 && a.Base == a.Fn.Params[0].Name() {
+				// a helper that requires the lock: every static caller holds it on the same receiver
+				callers := w.staticCallers(a.Fn)
+				all := len(callers) > 0 && len(w.dynamicCallers(a.Fn)) == 0
+				for _, c := range callers {
+					cf := c.Parent()
+					if st[cf] == nil {
+						st[cf] = lockStates(cf, nil)
+					}
+					cls := st[cf][c]
+					path := pathOf(c.Common().Args[0]) + "." + mutex
+					if a.Write && !cls.heldW(path) || !a.Write && !cls.held(path) {
+						all = false
+					}
+					if _, isGo := c.(*ssa.Go); isGo {
+						all = false
+					}
+				}
+				if all {
+					ok = true
+					how = fmt.Sprintf("every caller of the helper holds %s (%d call sites)", mutex, len(callers))
+				}
+			}
+			key := fmt.Sprintf("%s.%s %s in %s", typ, fname, kind, fnName(a.Fn))
+			if seen[key] && ok {
+				continue
+			}
+			seen[key] = true
+			r.Touch(a.Fn)
+			r.Sites++
+			r.Decide("lockset", key, ok, how, fmt.Sprintf("%s.%s is accessed without %s (lockset %s): %s", typ, fname, mutex, ls.String(), why), a.Instr.Pos())
+		}
+	}
+}
